@@ -605,3 +605,103 @@ func bitmapRecvAddr(v ssa.Value) ssa.Value {
 	}
 	return v
 }
+
+// ruleRegistryWritersSerial (L9.serial): the registry's writers are load-modify-store sequences on an
+// atomic.Value (a function that both Loads and Stores `columns.cols`); two of them side by side lose
+// one update and — because Store edits the loaded entries in place (KF8) — write the same slice
+// element unsynchronised. The creators the property names ("index creation": CreateIndex,
+// CreateSortIndex, and CreateTrigger which shares their shape) call them under the exclusive
+// collection mutex; the rule demands that of every caller except the frozen list below.
+//
+// Not claimed (frozen, one reason each): CreateColumn, DropColumn, DropIndex, DropTrigger store
+// into the registry without the mutex on the pinned tree; column creation and drops are not in the
+// mix C18 quantifies over, so the rule does not speak about them.
+var registryWriterNotClaimed = map[string]string{
+	"(*column.Collection).CreateColumn":    "column creation is not in C18's mix; unserialised on the pinned tree",
+	"(*column.Collection).CreateColumnsOf": "column creation is not in C18's mix; unserialised on the pinned tree",
+	"(*column.Collection).DropColumn":      "drops are not in C18's mix; unserialised on the pinned tree",
+	"(*column.Collection).DropIndex":       "drops are not in C18's mix; unserialised on the pinned tree",
+	"(*column.Collection).DropTrigger":     "drops are not in C18's mix; unserialised on the pinned tree",
+	"column.NewCollection":                 "the collection is under construction and not shared yet",
+}
+
+func ruleRegistryWritersSerial(r *Report) {
+	L := r.Shared.Lockset()
+	h := r.Rule("L9.serial", "L", "the load-modify-store writers of the column registry are called under the exclusive collection mutex by the index/trigger creators (two creators side by side would lose one update and write the same entry unsynchronised)", 3)
+	// writers by shape
+	writers := map[*ssa.Function]bool{}
+	publishers := registryPublishers(r.P)
+	for fn := range r.P.modFunc {
+		loads, stores := false, false
+		allInstrs(fn, func(ins ssa.Instruction) {
+			cc, _, _ := callCommon(ins)
+			if cc == nil || len(cc.Args) == 0 {
+				return
+			}
+			if sc := cc.StaticCallee(); sc != nil && publishers[sc] {
+				loads = true // through an accessor that hands out the loaded registry
+			}
+			fr, ok := fieldOf(cc.Args[0])
+			if !ok {
+				fr, ok = loadedField(cc.Args[0])
+			}
+			if !ok || fr.Struct != "column.columns" || fr.Field != "cols" {
+				return
+			}
+			if methodOn(cc, "sync/atomic", "Value", "Load") {
+				loads = true
+			}
+			if methodOn(cc, "sync/atomic", "Value", "Store") {
+				stores = true
+			}
+		})
+		if loads && stores {
+			writers[fn] = true
+		}
+	}
+	type agg struct {
+		n   int
+		bad *LSite
+		ins ssa.Instruction
+	}
+	by := map[string]*agg{}
+	for ins, ss := range L.At {
+		cc, _, _ := callCommon(ins)
+		if cc == nil {
+			continue
+		}
+		sc := cc.StaticCallee()
+		if sc == nil || !(writers[sc] || (sc.Origin() != nil && writers[sc.Origin()])) {
+			continue
+		}
+		if writers[ins.Parent()] {
+			continue // a writer delegating to a writer: judged at the outer call
+		}
+		// one obligation per entry point (public API) from which the writer is reached
+		for i := range ss {
+			for _, n := range L.RootsOf(ss[i].Ctx) {
+				a := by[n]
+				if a == nil {
+					a = &agg{}
+					by[n] = a
+				}
+				a.n++
+				if !ss[i].Held.hasW("Collection.lock") && a.bad == nil {
+					a.bad, a.ins = &ss[i], ins
+				}
+			}
+		}
+	}
+	for _, n := range sortedKeys(by) {
+		a := by[n]
+		switch {
+		case a.bad == nil:
+			h.OK(n, "-", fmt.Sprintf("%d calls of a registry writer, all under the exclusive collection mutex", a.n))
+		case registryWriterNotClaimed[n] != "":
+			h.OK(n+"/not-claimed", r.P.InstrPos(a.ins), "not claimed: "+registryWriterNotClaimed[n])
+		default:
+			o := h.Bad(n, r.P.InstrPos(a.ins), "a load-modify-store writer of the column registry is called without the exclusive collection mutex: two index or trigger creations side by side lose one of the updates and write the same registry entry unsynchronised")
+			setWitness(o, a.bad)
+		}
+	}
+}
